@@ -87,10 +87,19 @@ pub fn fetch(load: fn(&mut HashMap<String, Instruction>), ord: usize, name: &'st
     }
     let mut map: HashMap<String, Instruction> = HashMap::new();
     load(&mut map);
-    std::mem::forget(map);
     let b = name.as_bytes();
     unsafe {
+        if SLOT == MAGIC + 0x0301 {
+            // Native replay (`cargo kani playback`): Kani stubs are not applied, the real HashMap::insert
+            // ran and the map really holds the registry - look the name up in it. Under Kani this branch
+            // is dead: the insert stub has set SLOT (or the assertion below fails).
+            if let Some(ins) = map.remove(name) {
+                std::mem::forget(map);
+                return ins;
+            }
+        }
         assert!(SLOT != MAGIC + 0x0301, "instruction not captured (registry ordinal out of range)");
+        std::mem::forget(map);
         assert!(
             SLOT_KEY_LEN == MAGIC + b.len() && SLOT_KEY_FIRST == MAGIC + b[0] as usize && SLOT_KEY_LAST == MAGIC + b[b.len() - 1] as usize,
             "registry ordinal/name mismatch (extract.py vs runtime)"
